@@ -423,7 +423,7 @@ func vfRLNewSide(t *testing.T, p vfRLParams, ci time.Duration) *vfRLSide {
 	fs.vfPoke("/d/a", "F", []byte("a"), "", 0644)
 	cfg := p.config(ci)
 	env := vfNewEnv(t, fs, ExportOptions{EnableRateLimiting: true, RateLimitConfig: &cfg, MaxWorkers: 2})
-	if env.n.rateLimiter == nil {
+	if env.n.rateLimiter.Load() == nil {
 		t.Fatalf("rate limiter not installed by New with EnableRateLimiting")
 	}
 	s := &vfRLSide{env: env}
@@ -514,7 +514,7 @@ func TestVF_RateLimitNFS(t *testing.T) {
 		base := vfNow()
 		a := vfRLNewSide(t, p, time.Duration(p.CI)*vfRLTick)
 		b := vfRLNewSide(t, p, vfRLNever)
-		h := &vfRLHist{tr: tr, rl: func() *RateLimiter { return a.env.n.rateLimiter }, twin: func() *RateLimiter { return b.env.n.rateLimiter },
+		h := &vfRLHist{tr: tr, rl: func() *RateLimiter { return a.env.n.rateLimiter.Load() }, twin: func() *RateLimiter { return b.env.n.rateLimiter.Load() },
 			base: base, level: "nfs", keep: hi < 1}
 		h.reset(hi, p, M{"directed": false})
 		ips := []string{"10.0.0.1", "10.0.0.2", "10.0.0.3"}
@@ -653,7 +653,7 @@ func TestVF_RateLimitConn(t *testing.T) {
 		base := vfNow()
 		a := vfRLNewSide(t, p, time.Duration(p.CI)*vfRLTick)
 		b := vfRLNewSide(t, p, vfRLNever)
-		h := &vfRLHist{tr: tr, rl: func() *RateLimiter { return a.env.n.rateLimiter }, twin: func() *RateLimiter { return b.env.n.rateLimiter },
+		h := &vfRLHist{tr: tr, rl: func() *RateLimiter { return a.env.n.rateLimiter.Load() }, twin: func() *RateLimiter { return b.env.n.rateLimiter.Load() },
 			base: base, level: "conn", keep: hi < 1}
 		h.reset(hi, p, M{"directed": directed})
 		type pair struct {
